@@ -32,6 +32,10 @@ func GenConnScript(t *rapid.T) ConnScript {
 		s.AppendCCS = true
 		s.Classes = append(s.Classes, "ccs-record-in-the-same-write-as-the-hello")
 	}
+	if rapid.IntRange(0, 5).Draw(t, "conntok") == 0 {
+		s.ConnectionTokens = rapid.SliceOfNDistinct(rapid.SampledFrom([]string{"X-JA3-Fingerprint", "x-ja4-fingerprint", "X-HTTP2-Fingerprint", "X-Custom-Fingerprint"}), 1, 3, rapid.ID[string]).Draw(t, "tokens")
+		s.Classes = append(s.Classes, "connection-header-names-fingerprint-headers")
+	}
 	s.NReq = rapid.IntRange(1, 3).Draw(t, "nreq")
 	s.Custom = rapid.Bool().Draw(t, "custom")
 	if s.Custom {
